@@ -2,7 +2,8 @@
 # MANIFEST.setup_cmd: build the framework offline from files on disk and warm the
 # build cache (normal and race-instrumented), then run the oracle self-tests.
 set -eu
-cd /verif
+cd "$(dirname "$(readlink -f "$0")")"
+export VERIF_ROOT="$PWD"
 export GOFLAGS=-mod=mod GOPROXY=off GOSUMDB=off GOTOOLCHAIN=local CGO_ENABLED=1
 mkdir -p .build .run replay evidence
 cp /repo/go.sum harness/go.sum
